@@ -394,7 +394,7 @@ def _var_agg(
     return result
 
 
-def _cov_finalizer(df, cols, std=False):
+def _cov_finalizer(df, cols, std=False, ddof=1):
     num_elements = len(list(it.product(cols, repeat=2)))
     num_cols = len(cols)
     vals = list(range(num_elements))
@@ -408,7 +408,7 @@ def _cov_finalizer(df, cols, std=False):
         nj = df[f"{j}-count"]
 
         n = np.sqrt(ni * nj)
-        div = n - 1
+        div = n - (1 if std else ddof)
         div[div < 0] = 0
         val = (df[mul_col] - df[i] * df[j] / n).values[0] / div.values[0]
         if std:
@@ -515,7 +515,7 @@ def _cov_agg(_t, levels, ddof, std=False, sort=False):
     result = (
         concat([total_sums, total_muls, total_counts], axis=1)
         .groupby(level=levels)
-        .apply(_cov_finalizer, cols=cols, std=std)
+        .apply(_cov_finalizer, cols=cols, std=std, ddof=ddof)
     )
 
     inv_col_mapping = {v: k for k, v in col_mapping.items()}
